@@ -46,6 +46,12 @@ def run(ctx):
     from .c06 import rule_no_replacement
     ctx.rule(rule_no_replacement, 'C05.R7', only={'emd.sift.interp_envelope', 'emd.sift.get_padded_extrema'})
     ctx.rule(rule_pad_width, 'C05.R7')
+    # the extrema are handed back whenever there are at least two of them: "no extrema" (None) only for fewer than two
+    from . import siftcore
+    ctx.rule(siftcore.rule_none_chain, 'C05.R8', ctx.P.func('emd.sift.get_next_imf'))
+    from . import l2
+    ctx.rule(l2.rule_inplace_input_dtype, 'C05.R9', ['emd.sift.interp_envelope', 'emd.sift.get_padded_extrema',
+                                                    'emd.sift._find_extrema', 'emd.sift.compute_parabolic_extrema'])
     l1.rule_lib_attrs(ctx, 'L1', [IE], 'envelope')
 
 
